@@ -26,7 +26,34 @@ MODEL_TB = COMMON_TB + ["modelled, validated by correspondence: field/packer_unp
                         "(Pack/Unpack/setters/GetFields/UnsetField) incl. the partial state a failed Unpack leaves behind and UnpackError field-id paths",
                         "spec and value terms are built into library objects by harness/specterm.go (reflect.StructOf + Marshal for subfield population)"]
 
+HIST_RULE = ("message histories: 1200 (thorough 30000) random histories of 2..8 operations over generated specs (set MTI, set by id, populate by value, "
+             "JSON decode, Unpack of another packed message of the same spec, unset by id, unset by path, Pack, JSON encode, Clone continuing on the clone / on the "
+             "original, Bitmap), observed after every step, plus all sequences up to length 3 (thorough 5) over a 14-letter alphabet on a fixed spec with a BER-TLV "
+             "composite and a tagged composite nesting a positional one")
+
 PROPS = {
+    "C12": {
+        "topics": ["hist", "msg"],
+        "nontrivial": lambda c, i: "(json)" in c and " ok x7b" in (" " + i),
+        "rule": HIST_RULE + "; plus the populate/pack/unpack histories of C01; non-trivial = distinct history whose JSON encoding succeeds",
+        "trusted_base": MODEL_TB + ["modelled, validated by byte-for-byte correspondence: encoding/json string escaping (HTML escaping on, invalid UTF-8 -> U+FFFD), OrderedMap; encoding/json's parser is trusted for the decode direction"],
+        "assumptions": ["textual values are valid UTF-8 (JSON's own domain)"],
+    },
+    "C14": {
+        "topics": ["hist"],
+        "nontrivial": lambda c, i: c.count("(get)") >= 2,
+        "rule": HIST_RULE + "; the oracle compares GetFields, the bitmap read off the packed bytes and the JSON keys after every step, and re-packs a fresh message built from the observable values; non-trivial = distinct history of >= 2 steps",
+        "trusted_base": MODEL_TB,
+        "assumptions": ["ids 0 (MTI) and 1 (bitmap) are bookkeeping: observers are compared on data elements >= 2"],
+    },
+    "C15": {
+        "topics": ["hist", "msg", "fld"],
+        "nontrivial": lambda c, i: "pack" in c and "ok x" in i,
+        "rule": HIST_RULE + "; plus the histories of C01; each message is encoded (Pack, JSON, Describe) repeatedly, cloned, the clone and the original are mutated in turn, "
+                "the population prefix is replayed in reverse order, primitive values are handed over as slices with 20 sentinel bytes of spare capacity; non-trivial = distinct history that packs",
+        "trusted_base": MODEL_TB,
+        "assumptions": ["messages whose MTI was never set pack without one and cannot be cloned: outside the property"],
+    },
     "C01": {
         "topics": ["fld", "msg"],
         "nontrivial": lambda c, i: "(set" in c and "| ok x" in i.replace("ok | ", "| "),
@@ -75,7 +102,7 @@ PROPS = {
         "assumptions": ["tag sets on which the sort function is a strict total order (DESIGN.md section 2.3)"],
     },
     "C10": {
-        "topics": ["fld", "msg"],
+        "topics": ["fld", "msg", "hist"],
         "nontrivial": lambda c, i: c.count("(unpack") >= 1 and ("(set" in c or c.count("(unpack") >= 2),
         "rule": FLD_MSG_RULE + "; the oracle replays the history before the last unpack on one object and compares value, re-pack and JSON with a fresh object; "
                 "non-trivial = distinct history with prior state followed by an unpack",
